@@ -138,6 +138,11 @@ def rule_key(ctx):
                     r.violation('%s:key:%s' % (b.path, n), t['s'], b.path,
                                 'cache accessed with a key that is not the function\'s own `options` argument: a request for '
                                 'one column setting can be served the other\'s map')
+            if head == 'DashMap' and n in ('iter', 'iter_mut', 'into_iter', 'retain', 'alter_all', 'view'):
+                r.site('%s: cache traversed with `%s`' % (b.path, n), t['s'], 'violation')
+                r.violation('%s:traverse:%s' % (b.path, n), t['s'], b.path,
+                            'the map cache is traversed (`%s`) instead of being read under the caller\'s own option set: an answer cached '
+                            'for one column setting can decide the answer for the other' % n)
             if (head in ('VacantEntry', 'Entry') and n in ('insert', 'or_insert', 'insert_entry')) or \
                (head == 'DashMap' and n == 'insert'):
                 val = b.expr_of_operand(t['args'][-1])
@@ -208,6 +213,13 @@ def rule_memo(ctx):
     cells = anchors.once_string_cells(f)
     C = anchors.cached_source(f)
     cells_all = [(a, fl, 'string') for a, fl in cells] + [(C['adt'], C['cached_hash'], 'hash')]
+    for p_ in anchors.source_types(f):
+        for fl_ in anchors.fields(f.adts[p_]):
+            sh = fl_['shape']
+            inner = anchors.shape_arg(sh) if anchors.shape_is(sh, 'sync::Arc') else sh
+            if isinstance(inner, dict) and (inner.get('adt', '').endswith('OnceLock') or inner.get('adt', '').endswith('OnceCell')):
+                if not any(a == p_ and x == fl_['name'] for a, x, _ in cells_all):
+                    cells_all.append((p_, fl_['name'], 'memo'))
     cache = anchors.cache_fields(f)
     cache_set = {(a, fl) for a, fl, _ in cache}
     R = anchors.replace_source(f)
@@ -350,4 +362,46 @@ def rule_encode_all(ctx):
                         'this collector feeds the mappings encoder only on some paths (or not with the mapping it received): segments '
                         'that close an active mapping are lost, so the collected (cached) map attributes positions differently from map()')
     r.check_floor()
+    return r
+
+
+def rule_memo_reset(ctx):
+    """MEMO-RESET: whoever mutates the data a memo cell is computed from must reset the cell"""
+    f = ctx.facts()
+    r = RuleResult('MEMO-RESET', 'a memo cell never outlives the data it was computed from: every function that mutates a data field of a '
+                                 'type holding OnceLock/OnceCell memo cells resets each of them on all paths after the mutation '
+                                 '(ReplaceSource\'s sorted-flag pair is RESET\'s business)')
+    r.floor = 0
+    cache = anchors.cache_fields(f)
+    by_adt = {}
+    for a, fl, ty in cache:
+        if 'OnceLock' in ty or 'OnceCell' in ty:
+            by_adt.setdefault(a, []).append(fl)
+    from .eqhash import data_fields
+    for adt, cells in sorted(by_adt.items()):
+        dfl = data_fields(f, adt) or []
+        for b in f.body_list:
+            if b.promoted is not None:
+                continue
+            muts = [(pt, node, fld) for fld in dfl for pt, role, pl, node, rest in b.field_accesses(adt, fld)
+                    if role in ('mutref', 'write', 'drop')]
+            if not muts:
+                continue
+            for cell in cells:
+                resets = [pt for pt, role, pl, node, rest in b.field_accesses(adt, cell) if role == 'write' and not rest]
+                for pt, t in b.calls():
+                    c = t.get('callee')
+                    if c and c['name'] in ('take', 'get_mut') and t['args'] and \
+                            expr_mentions_field(b.expr_of_operand(t['args'][0]), cell, adt) and c['name'] == 'take':
+                        resets.append(pt)
+                for pt, node, fld in muts:
+                    ok = any(b.postdominates(rp, pt) for rp in resets)
+                    site = node.get('s', b.span())
+                    r.site('%s mutates %s.%s; memo cell %s is reset afterwards' % (b.path, adt.rsplit('::', 1)[-1], fld, cell), site,
+                           'ok' if ok else 'violation')
+                    if not ok:
+                        r.violation('%s:%s' % (b.path, cell), site, b.path,
+                                    'data field `%s` is mutated but memo cell `%s` is not reset on every path afterwards: the memoised answer '
+                                    'goes stale (observe, mutate, observe)' % (fld, cell))
+    r.site('census: %d types with memo cells, %d cells' % (len(by_adt), sum(len(v) for v in by_adt.values())), '(crate)', 'ok')
     return r
